@@ -108,8 +108,8 @@ def gen_cases(rng, tier):
     n = {"quick": 260, "thorough": 4000, "search": 1500}[tier]
     cases = []
     for k in range(n):
-        dtype = "int" if rng.random() < 0.55 else "float"
-        flavour = rng.choice(["small", "small", "big"]) if dtype == "int" else rng.choice(["dyadic", "dyadic", "double", "scale"])
+        dtype = "int" if (rng.random() < 0.55 or k < 24) else "float"   # small integer cases first: short replays
+        flavour = ("small" if k < 24 else rng.choice(["small", "small", "big"])) if dtype == "int" else rng.choice(["dyadic", "dyadic", "double", "scale"])
         r = k % 8
         shape = [[], [], [1], [rng.randint(2, 4)], [rng.randint(2, 4)], [rng.randint(1, 3), rng.randint(1, 3)], [0],
                  [rng.choice([0, 2]), rng.choice([0, 2])]][r]
